@@ -209,19 +209,32 @@ func c12Builder(fn string, ops []builderOp) (string, string) {
 	return "", ""
 }
 
+// one parser instance serves many inputs, as in a node; results handed out earlier must stay what they were
+var sharedCallParser = parsers.NewCallArgsParser()
+var sharedDeployParser = parsers.NewDeployArgsParser()
+var sharedStorageParser = parsers.NewStorageUpdatesParser()
+
 func c12CallRoundTrip(fn string, args [][]byte) (string, string) {
 	s := TxEncode(fn, args)
-	gotFn, gotArgs, err := parsers.NewCallArgsParser().ParseData(s)
+	gotFn, gotArgs, err := sharedCallParser.ParseData(s)
 	if err != nil || gotFn != fn || !argsEqual(gotArgs, args) {
 		return "callargs/roundtrip", sprintf("ParseData(%q) = (%q, %x, %v), encoded (%q, %x)", s, gotFn, gotArgs, err, fn, args)
+	}
+	// a second, different parse on the same instance (shorter argument list, upper-case hex, then a failing one)
+	if len(args) > 0 {
+		_, _, _ = sharedCallParser.ParseData(TxEncode("g", [][]byte{{0xff}, {0xee}}[:1+len(args)%2]))
 	}
 	up := fn
 	for _, a := range args {
 		up += "@" + strings.ToUpper(hx(a))
 	}
-	gotFn, gotArgs, err = parsers.NewCallArgsParser().ParseData(up)
-	if err != nil || gotFn != fn || !argsEqual(gotArgs, args) {
-		return "callargs/roundtrip-uppercase", sprintf("ParseData(%q) = (%q, %x, %v), encoded (%q, %x)", up, gotFn, gotArgs, err, fn, args)
+	gotFn2, gotArgs2, err := sharedCallParser.ParseData(up)
+	if err != nil || gotFn2 != fn || !argsEqual(gotArgs2, args) {
+		return "callargs/roundtrip-uppercase", sprintf("ParseData(%q) = (%q, %x, %v), encoded (%q, %x)", up, gotFn2, gotArgs2, err, fn, args)
+	}
+	_, _, _ = sharedCallParser.ParseData("h@01@zz")
+	if !argsEqual(gotArgs, args) || !argsEqual(gotArgs2, args) {
+		return "callargs/result-changed-by-later-parse", sprintf("the arguments returned for %q became %x after later ParseData calls on the same parser", s, gotArgs)
 	}
 	return "", ""
 }
@@ -231,10 +244,14 @@ func c12DeployRoundTrip(code, vmType, meta []byte, args [][]byte) (string, strin
 	for _, a := range args {
 		s += "@" + hx(a)
 	}
-	d, err := parsers.NewDeployArgsParser().ParseData(s)
+	d, err := sharedDeployParser.ParseData(s)
 	_, _, _, wantMeta, _ := refDeploy(s)
 	if err != nil || d == nil || !bytes.Equal(d.Code, code) || !bytes.Equal(d.VMType, vmType) || d.CodeMetadata != wantMeta || !argsEqual(d.Arguments, args) {
 		return "deploy/roundtrip", sprintf("deploy ParseData(%q) = (%+v, %v)", s, d, err)
+	}
+	_, _ = sharedDeployParser.ParseData("aa@0500@0100@ff@ee")
+	if !bytes.Equal(d.Code, code) || !bytes.Equal(d.VMType, vmType) || !argsEqual(d.Arguments, args) {
+		return "deploy/result-changed-by-later-parse", sprintf("the result returned for %q changed after a later ParseData on the same parser", s)
 	}
 	return "", ""
 }
@@ -244,7 +261,7 @@ func c12StorageRoundTrip(pairs [][2][]byte) (string, string) {
 	for _, p := range pairs {
 		ups = append(ups, &vmcommon.StorageUpdate{Offset: p[0], Data: p[1]})
 	}
-	sp := parsers.NewStorageUpdatesParser()
+	sp := sharedStorageParser
 	var s string
 	var back []*vmcommon.StorageUpdate
 	var err error
@@ -257,6 +274,12 @@ func c12StorageRoundTrip(pairs [][2][]byte) (string, string) {
 	}
 	if !ok {
 		return "storage/roundtrip", sprintf("CreateDataFromStorageUpdate(%x) = %q parses to %d updates, %v", pairs, s, len(back), err)
+	}
+	_, _ = sp.GetStorageUpdates("ff@ee@dd@cc")
+	for i := 0; i < len(pairs); i++ {
+		if !bytes.Equal(back[i].Offset, pairs[i][0]) || !bytes.Equal(back[i].Data, pairs[i][1]) {
+			return "storage/result-changed-by-later-parse", sprintf("the updates returned for %q changed after a later GetStorageUpdates on the same parser", s)
+		}
 	}
 	if again := sp.CreateDataFromStorageUpdate(back); again != s {
 		return "storage/rebuild", sprintf("re-encoding the parse of %q gives %q", s, again)
